@@ -15,3 +15,4 @@ import FatVerif.Props.C07
 import FatVerif.Props.C10
 import FatVerif.Props.C05
 import FatVerif.Props.C03fat
+import FatVerif.Props.C06
